@@ -296,6 +296,8 @@ def matrix():
             for how in ["tree"] + FORMATS:
                 ops += [("load", doc_p, how), ("challenge", doc_p)]
             ops += [("challenge", mutate(rng, doc_p)), ("saveload", FORMATS[(a + ki) % 5]), ("challenge", doc_p)]
+            if default is not None:
+                ops += [("new",), ("challenge", default if isinstance(default, str) else p), ("new",)]
             cases.append(finish({"alg": a, "req": bool((a + ki) % 2), "default": default, "ops": ops, "secrets": [p, doc_p]}))
     # shapes of _validate / to_python / create / parse, one small case each per algorithm
     for a in range(6):
@@ -470,7 +472,9 @@ def random_case(rng):
             else:
                 ops.append(("python", rng.choice([None, 5, b"bytes", [1], rstr(rng, 7), 1.5, ("a", "b")])))
         elif k < 0.88:
-            ops.append((rng.choice(["basic", "str"]),))
+            ops.append((rng.choice(["basic", "str", "new"]),))
+            if ops[-1][0] == "new":
+                last[0] = default if isinstance(default, str) else None
         elif k < 0.94:
             salt = rng.choice([None, b"", rbytes(rng, ds), rbytes(rng, ds - 1), rbytes(rng, ds + rng.randint(1, 8)), rbytes(rng, 1)])
             ops.append(("create", plaintext(rng, rng.choice(KINDS[:3] + ["bytes", "rawbytes"])) if rng.random() < 0.9 else "\ud800", salt))
@@ -758,8 +762,13 @@ def oracle(c, obs):
             bad.append("op %d %s: unexpected os.urandom call" % (i, k))
         if k == "saveload":
             before = e.get("before")
-            if isinstance(c["default"], str) and ok:
+            if isinstance(c["default"], str):
                 known.append(c["default"])
+                if "out" in e and [n for n, _ in calls] != [ds]:
+                    bad.append("op %d saveload %s: the fresh configuration's plaintext default was not hashed with one "
+                               "fresh os.urandom(digest_size) salt (calls %r)" % (i, op[1], [n for n, _ in calls]))
+            elif calls:
+                bad.append("op %d saveload %s: unexpected os.urandom call" % (i, op[1]))
             if isinstance(before, Digest):
                 if not ok or not isinstance(o[1], Digest):
                     bad.append("op %d saveload %s: a stored digest value did not load back: %r" % (i, op[1], o))
